@@ -7,8 +7,8 @@ import scipy.stats
 from .core import num, st
 
 
-def part_record(nnsp, scale=1):
-    D = [[int(round(scale * float(v))) for v in row] for row in np.asarray(nnsp.D)]
+def part_record(nnsp, scale=1, off=0):
+    D = [[int(round(scale * (float(v) - off))) for v in row] for row in np.asarray(nnsp.D)]
     adj = np.asarray(nnsp.adjacency_matrix)
     nb = [[int(j) + 1 for j in np.nonzero(adj[i])[0]] for i in range(adj.shape[0])]
     return {"D": D, "v1": [int(x) for x in nnsp.v1], "v2": [int(x) for x in nnsp.v2], "nb": nb}
@@ -128,10 +128,13 @@ def run_nndvi(p, script, seed=0):
     # the others carry fractions - what a batch IS must not depend on the dtype of the reference it is compared with
     # "tiny": the same points in units of 2**-40 (about 1e-12): distinct points stay distinct however close they are in absolute terms
     scale = 2 if p.get("halves") else (2 ** 40 if p.get("tiny") else 1)
-    to_det = (lambda rows: [[v / scale for v in r] for r in rows]) if scale != 1 else (lambda rows: rows)
+    # "offset": the same points riding on 2**26 (ids, counters, timestamps): neighbour relations are translation-invariant and every coordinate is an
+    # exact double - points one unit apart stay distinct points however large the level
+    off = float(2 ** 26) if p.get("offset") else 0.0
+    to_det = (lambda rows: [[v / scale + off for v in r] for r in rows]) if (scale != 1 or off) else (lambda rows: rows)
 
     def refrows():
-        return [[int(round(scale * float(v))) for v in r] for r in np.asarray(det.reference_batch)]
+        return [[int(round(scale * (float(v) - off))) for v in r] for r in np.asarray(det.reference_batch)]
 
     def counters():
         return {"total": int(det.total_batches), "since": int(det.batches_since_reset), "state": st(det.drift_state)}
@@ -169,7 +172,7 @@ def run_nndvi(p, script, seed=0):
             X = np.array(to_det(s[1]), dtype=float)
             nn = NNSpacePartitioner(p["k_nn"])
             nn.build(ref_before, X)
-            part = part_record(nn, scale)
+            part = part_record(nn, scale, off)
             for key in ("theta", "M", "v1", "v2"):
                 seen.pop(key, None)
             # observe the distances the update computes (optional): the first is the batch's own, the following sampling_times are
